@@ -17,6 +17,7 @@ import Driver.C11
 import Driver.C18
 import Driver.Gen
 import Driver.PyGen
+import Driver.Json
 
 open Driver
 
@@ -38,7 +39,8 @@ def handlers : List (List String → Option String) := [
   Driver.C11.handle,
   Driver.C18.handle,
   Driver.Gen.handle,
-  Driver.PyGen.handle
+  Driver.PyGen.handle,
+  Driver.Json.handle
 ]
 
 def dispatch (toks : List String) : String :=
